@@ -54,18 +54,26 @@ package hal
 //@   trusted
 //@ func font.FindByName(name string) (f *font.Font)
 //@   trusted
+// fontSets counts SetFont calls: the framebuffer console derives its text rows from the height the
+// logo leaves free, so a logo must be in place before the font is set (and linking, which draws
+// the terminal's rows, comes after both)
+//@ ghost fontSets uintptr
 //@ func (s console.LogoSetter) SetLogo(img *logo.Image)
 //@   trusted
 //@ func (s console.FontSetter) SetFont(f *font.Font)
 //@   trusted
+//@   modifies fontSets
+//@   ensures fontSets == old(fontSets) + 1
 
 // onConsoleInit: a console that arrives when one is already active changes nothing at all;
 // the first one becomes the active console and - exactly when a terminal is already active - the
 // pair is linked, once
 //@ func onConsoleInit(cons console.Device)
-//@   property C16
+//@   property C16 C18
 //@   requires !isnil(cons) && kfmt.wfRB(&kfmt.earlyPrintBuffer)
-//@   modifies devices.activeConsole, links, attaches, attachT, attachC, stateSets, stateT, stateArg, kfmt.outputSink, kfmt.ringBuffer.rIndex, elems(uint8), kfmt.outLen, kfmt.out
+//@   modifies fontSets, devices.activeConsole, links, attaches, attachT, attachC, stateSets, stateT, stateArg, kfmt.outputSink, kfmt.ringBuffer.rIndex, elems(uint8), kfmt.outLen, kfmt.out
+//@   at call SetLogo 1: assert logoFirst: fontSets == old(fontSets)
+//@   at call linkTTYToConsole 1: assert geometryFirst: fontSets == old(fontSets) || fontSets == old(fontSets) + 1
 //@   ensures tty: devices.activeTTY == old(devices.activeTTY)
 //@   ensures rb: kfmt.wfRB(&kfmt.earlyPrintBuffer)
 //@   ensures later: !isnil(old(devices.activeConsole)) ==> devices.activeConsole == old(devices.activeConsole) && links == old(links) && attaches == old(attaches) && stateSets == old(stateSets) && kfmt.outputSink == old(kfmt.outputSink) && kfmt.outLen == old(kfmt.outLen)
@@ -82,7 +90,7 @@ package hal
 //@   at entry: ghost inits = inits + 1
 //@   ensures logged: inits == old(inits) + 1 && initLog == upd(old(initLog), old(inits), drv)
 //@   ensures rb: kfmt.wfRB(&kfmt.earlyPrintBuffer)
-//@   modifies inits, initLog, devices.activeConsole, devices.activeTTY, links, attaches, attachT, attachC, stateSets, stateT, stateArg, kfmt.outputSink, kfmt.ringBuffer.rIndex, elems(uint8), kfmt.outLen, kfmt.out
+//@   modifies fontSets, inits, initLog, devices.activeConsole, devices.activeTTY, links, attaches, attachT, attachC, stateSets, stateT, stateArg, kfmt.outputSink, kfmt.ringBuffer.rIndex, elems(uint8), kfmt.outLen, kfmt.out
 //@   ensures other: !implements(drv, console.Device) && !implements(drv, tty.Device) ==> devices.activeConsole == old(devices.activeConsole) && devices.activeTTY == old(devices.activeTTY) && links == old(links)
 //@   ensures latertty: !implements(drv, console.Device) && implements(drv, tty.Device) && !isnil(old(devices.activeTTY)) ==> devices.activeConsole == old(devices.activeConsole) && devices.activeTTY == old(devices.activeTTY) && links == old(links) && attaches == old(attaches) && kfmt.outputSink == old(kfmt.outputSink)
 //@   ensures firsttty: !implements(drv, console.Device) && implements(drv, tty.Device) && isnil(old(devices.activeTTY)) ==> !isnil(devices.activeTTY) && devices.activeConsole == old(devices.activeConsole) && links == old(links) + ite(isnil(devices.activeConsole), 0, 1)
@@ -127,7 +135,7 @@ package hal
 //@   property C16
 //@   requires kfmt.wfRB(&kfmt.earlyPrintBuffer) && len(devices.activeDrivers) >= 0 && len(devices.activeDrivers) < 0x1000000 && len(driverInfoList) < 0x1000000
 //@   requires forall(k, int, 0 <= k && k < len(driverInfoList) ==> driverInfoList[k] != nil)
-//@   modifies probes, probeLog, initCalls, initFails, inits, initLog, devices.activeConsole, devices.activeTTY, devices.activeDrivers, elems(device.Driver), links, attaches, attachT, attachC, stateSets, stateT, stateArg, kfmt.outputSink, kfmt.ringBuffer.rIndex, elems(uint8), kfmt.outLen, kfmt.out
+//@   modifies fontSets, probes, probeLog, initCalls, initFails, inits, initLog, devices.activeConsole, devices.activeTTY, devices.activeDrivers, elems(device.Driver), links, attaches, attachT, attachC, stateSets, stateT, stateArg, kfmt.outputSink, kfmt.ringBuffer.rIndex, elems(uint8), kfmt.outLen, kfmt.out
 //@   at call Probe 1: ghost probeLog = upd(probeLog, probes, info.Order)
 //@   at call DriverInit 1: assert !isnil(kfmt.outputSink) ==> w.Sink == kfmt.outputSink
 //@   ensures all: probes == old(probes) + uintptr(len(driverInfoList)) && forall(k, int, 0 <= k && k < len(driverInfoList) ==> probeLog[old(probes) + uintptr(k)] == old(driverInfoList[k].Order))
@@ -155,7 +163,7 @@ package hal
 //@ func DetectHardware()
 //@   property C16
 //@   requires kfmt.wfRB(&kfmt.earlyPrintBuffer) && len(devices.activeDrivers) >= 0 && len(devices.activeDrivers) < 0x1000000 && len(device.registeredDrivers) >= 0 && len(device.registeredDrivers) < 0x1000000
-//@   modifies elems(*device.DriverInfo), probes, probeLog, initCalls, initFails, inits, initLog, devices.activeConsole, devices.activeTTY, devices.activeDrivers, elems(device.Driver), links, attaches, attachT, attachC, stateSets, stateT, stateArg, kfmt.outputSink, kfmt.ringBuffer.rIndex, elems(uint8), kfmt.outLen, kfmt.out
+//@   modifies fontSets, elems(*device.DriverInfo), probes, probeLog, initCalls, initFails, inits, initLog, devices.activeConsole, devices.activeTTY, devices.activeDrivers, elems(device.Driver), links, attaches, attachT, attachC, stateSets, stateT, stateArg, kfmt.outputSink, kfmt.ringBuffer.rIndex, elems(uint8), kfmt.outLen, kfmt.out
 //@   ensures all: probes == old(probes) + uintptr(len(device.registeredDrivers))
 //@   ensures order: forall(k, int, l, int, 0 <= k && k < l && l < len(device.registeredDrivers) ==> probeLog[old(probes) + uintptr(k)] <= probeLog[old(probes) + uintptr(l)])
 //@   ensures ok: inits - old(inits) == (initCalls - old(initCalls)) - (initFails - old(initFails))
